@@ -302,13 +302,17 @@ pub fn record(seed: u64, n: usize, out: &str) {
         let mut edges = random_tree(&mut r, nc);
         r.shuffle(&mut edges);
         let settle = if r.coin() { 0 } else { 20000 };
+        // one market in four: most quotes are dual numbers over ONE shared ordered variable list (u, v) with unrelated
+        // gradients - products along a path then multiply numbers that are already aligned
+        let one_list = r.chance(0.25);
         let mut quotes: Vec<Quote> = edges
             .iter()
             .map(|(a, b)| {
                 let (a, b) = if r.coin() { (*a, *b) } else { (*b, *a) };
-                if r.chance(0.2) {
+                if r.chance(if one_list { 0.8 } else { 0.2 }) {
                     // a quote that is already a dual number keeps its own variables
-                    let vars = if r.coin() { vec![format!("q{}", a), "shared".to_string()] } else { vec![format!("own_{}{}", names[a], names[b])] };
+                    let vars = if one_list { vec!["u".to_string(), "v".to_string()] }
+                               else if r.coin() { vec![format!("q{}", a), "shared".to_string()] } else { vec![format!("own_{}{}", names[a], names[b])] };
                     let g: Vec<f64> = vars.iter().map(|_| r.uniform(0.5, 2.0) * if r.coin() { 1.0 } else { -1.0 }).collect();
                     if r.chance(0.4) {
                         // a quote that is already a SECOND-order number with its own curvature
